@@ -307,6 +307,86 @@ CATALOGUE += [
 ]
 
 
+# ----------------------------------------------------------------------------- classes, members and chains (third session)
+# Positions no generated program reached (found by the area-driven break round and by two side remarks of its agents
+# about the pinned tree): classes declared inside functions, classes of imported modules whose members mention
+# module-level names or the class itself, function-typed fields, long dot chains, containers of maps indexed by
+# constants, `modify` of a captured optional between nil and present.
+_DOG = ("dcount = 5\nhelper = fn() -> int {\n return 7\n}\nexport class Dog {\n id: int\n constructor(self) {\n  self.id = 1 + dcount\n }\n"
+        " fn tag(self) -> int {\n  return self.id + dcount\n }\n fn hh(self) -> int {\n  return helper()\n }\n%s}\n")
+_TWIN = " fn twin(self) -> Self {\n  return Dog()\n }\n"
+CATALOGUE += [
+    ("class_in_function_called_twice",
+     "mk = fn(a: int) -> int {\n class Pq {\n  v: int\n  constructor(self, v: int) {\n   self.v = v\n  }\n  fn dbl(self) -> int {\n   return self.v * 2\n  }\n }\n p = Pq(a)\n return p.dbl()\n}\n"
+     + T("mk(3)") + T("mk(4)")),
+    ("class_in_function_capturing_local_called_twice",
+     "mk = fn(a: int) -> int {\n seed = a * 10\n class Pq {\n  v: int\n  constructor(self) {\n   self.v = seed\n  }\n  fn gv(self) -> int {\n   return self.v + seed\n  }\n }\n p = Pq()\n return p.gv()\n}\n"
+     + T("mk(1)") + T("mk(2)")),
+    ("class_in_function_built_by_escaping_lambda",
+     "mk = fn(a: int) -> fn() -> int {\n seed = a * 10\n class Pq {\n  v: int\n  constructor(self) {\n   self.v = seed\n  }\n }\n return fn() -> int {\n  p = Pq()\n  return p.v\n }\n}\ng = mk(2)\n" + T("g()")),
+    ("function_typed_field_called",
+     "class Hh {\n cb: fn(int) -> int\n constructor(self, f: fn(int) -> int) {\n  self.cb = f\n }\n fn via(self, x: int) -> int {\n  g = self.cb\n  return g(x)\n }\n}\n"
+     "h = Hh(fn(x: int) -> int {\n return x * 2\n})\n" + T("h.via(4)") + T("h.cb(4)")),
+    ("function_typed_field_called_zero_args",
+     "class Hh {\n cb: fn() -> str\n constructor(self, f: fn() -> str) {\n  self.cb = f\n }\n}\nh = Hh(fn() -> str {\n return \"r\"\n})\n" + T("h.cb()")),
+    ("function_typed_field_called_in_method",
+     "class Hh {\n cb: fn(int) -> int\n constructor(self, f: fn(int) -> int) {\n  self.cb = f\n }\n fn run(self, x: int) -> int {\n  return self.cb(x) + 1\n }\n}\n"
+     "h = Hh(fn(x: int) -> int {\n return x * 2\n})\n" + T("h.run(4)")),
+    ("class_method_constructs_own_class",
+     "class Dg {\n id: int\n constructor(self, i: int) {\n  self.id = i\n }\n fn twin(self) -> Self {\n  return Dg(self.id + 1)\n }\n}\nd = Dg(1)\ne = d.twin()\n" + T("e.id")),
+    ("class_method_constructs_own_class_from_function",
+     "class Dg {\n id: int\n constructor(self, i: int) {\n  self.id = i\n }\n fn twin(self) -> Self {\n  return Dg(self.id + 1)\n }\n}\nmk = fn() -> int {\n d = Dg(1)\n e = d.twin()\n return e.id\n}\n" + T("mk()")),
+    # classes of an imported module
+    ("module_class_members_use_module_names",
+     {"main.ms": "import kennel\nd = kennel.Dog()\n" + T("d.tag()") + T("d.hh()"), "kennel.ms": _DOG % ""}),
+    ("module_class_members_use_module_names_named_import",
+     {"main.ms": "import Dog from kennel\nd = Dog()\n" + T("d.tag()") + T("d.hh()"), "kennel.ms": _DOG % ""}),
+    ("module_class_method_constructs_own_class",
+     {"main.ms": "import kennel\nd = kennel.Dog()\ne = d.twin()\n" + T("e.tag()"), "kennel.ms": _DOG % _TWIN}),
+    ("module_class_method_constructs_own_class_named_import",
+     {"main.ms": "import Dog from kennel\nd = Dog()\ne = d.twin()\n" + T("e.tag()"), "kennel.ms": _DOG % _TWIN}),
+    ("module_class_built_by_module_function",
+     {"main.ms": "import kennel\nd = kennel.mk()\n" + T("d.tag()") + "e = d.twin()\n" + T("e.hh()"),
+      "kennel.ms": (_DOG % _TWIN) + "export mk: fn() -> Dog = fn() -> Dog {\n return Dog()\n}\n"}),
+    ("module_class_constructor_only_dependency_shadowed_in_importer",
+     {"main.ms": "import kennel\ndcount = 100\nd = kennel.Dog()\n" + T("d.id") + T("dcount"), "kennel.ms": _DOG % ""}),
+    ("module_class_constructor_only_dependency",
+     {"main.ms": "import stats\nimport kennel\nd = kennel.Pup()\ne = kennel.Pup()\n" + T("d.n") + T("e.n") + T("stats.seen()"),
+      "kennel.ms": "pups: [int...] = [0]\nexport class Pup {\n n: int\n constructor(self) {\n  self.n = pups[0]\n  pups[0] += 1\n }\n}\nexport registered: fn() -> int = fn() -> int {\n return pups[0]\n}\n",
+      "stats.ms": "import kennel\nexport seen: fn() -> int = fn() -> int {\n return kennel.registered()\n}\n"}),
+    # long dot chains
+    ("chain_later_call_argument_captured_only_there",
+     "class Acc {\n v: int\n constructor(self) {\n  self.v = 0\n }\n fn add(self, k: int) -> Self {\n  self.v += k\n  return self\n }\n fn value(self) -> int {\n  return self.v\n }\n}\n"
+     "second = 40\nmk = fn() -> fn() -> int {\n first = 1\n second = 2\n third = 3\n return fn() -> int {\n  a = Acc()\n  return a.add(first).add(second).add(third).value()\n }\n}\ng = mk()\n" + T("g()")),
+    ("chain_later_call_argument_captured_only_there_str",
+     "mk = fn() -> fn() -> str {\n open = \"(\"\n close = \")\"\n return fn() -> str {\n  s = \"a-b\"\n  return s.replace(\"a\", open).replace(\"b\", close)\n }\n}\ng = mk()\n" + T("g()")),
+    ("chain_field_then_method_called",
+     "class Eng {\n p: int\n constructor(self) {\n  self.p = 9\n }\n fn describe(self) -> int {\n  return self.p\n }\n}\nclass Car {\n engine: Eng\n constructor(self) {\n  self.engine = Eng()\n }\n fn me(self) -> Self {\n  return self\n }\n}\nc = Car()\n"
+     + T("c.engine.describe()") + T("c.me().engine.describe()")),
+    # containers of maps / lists indexed by constants and variables
+    ("list_of_maps_constant_indexes",
+     "m1 = map[int, str] {\n 1: \"one\",\n 3: \"three\"\n}\nm2 = map[int, str] {\n 7: \"siete\"\n}\ndicts: [map[int, str]...] = [m1, m2]\nk = 1\n"
+     + T("dicts[k][7]") + T("dicts[0][1]") + T("dicts[1][7]") + "dicts[0][3] = \"tres\"\n" + T("dicts[0][3]") + T("m1[3]")),
+    ("list_of_str_maps_constant_indexes",
+     "m1 = map[str, int] {\n \"a\": 1\n}\ndicts: [map[str, int]...] = [m1]\n" + T("dicts[0][\"a\"]") + "dicts[0][\"b\"] = 2\n" + T("m1[\"b\"]")),
+    ("map_of_lists_constant_indexes",
+     "l1: [int...] = [5, 6]\nmm = map[int, [int...]] {\n 2: l1\n}\n" + T("mm[2]") + "q = get mm[2]\n" + T("q[1]")),
+    ("list_of_lists_constant_indexes",
+     "l1: [int...] = [5, 6]\nl2: [int...] = [7]\nll: [[int...]...] = [l1, l2]\n" + T("ll[0][1]") + T("ll[1][0]") + "ll[0][1] = 9\n" + T("l1[1]") + "ll[0][0] += 1\n" + T("l1[0]")),
+    ("captured_map_indexed_in_closure",
+     "stock = map[str, int] {\n \"apple\": 3\n}\nnums = map[int, int] {\n 1: 10\n}\nadd = fn(k: str, n: int) {\n stock[k] = n\n nums[2] = n\n}\nrd = fn(k: str) -> int? {\n return stock[k]\n}\nadd(\"pear\", 4)\n"
+     + T("rd(\"pear\")") + T("rd(\"apple\")") + T("nums[2]") + T("stock.len()")),
+    ("captured_map_indexed_in_escaping_closure",
+     "mk = fn() -> fn(str) -> int? {\n stock = map[str, int] {\n  \"apple\": 3\n }\n return fn(k: str) -> int? {\n  stock[\"seen\"] = 1\n  return stock[k]\n }\n}\nrd = mk()\n" + T("rd(\"apple\")") + T("rd(\"seen\")")),
+    ("alias_list_and_str_index",
+     "type Row [int...]\nr: Row = [4, 5]\n" + T("r.len()")),
+    # modify of a captured optional between nil and present
+    ("modify_captured_optional_nil_to_present_and_back",
+     "last: int? = nil\nnone: int? = nil\nseen = 0\nrec = fn(v: int) {\n modify last = v\n modify seen = seen + 1\n}\nclr = fn() {\n modify last = none\n}\n" + T("last == nil") + "rec(4)\n" + T("last") + T("get last")
+     + "rec(9)\n" + T("last") + "clr()\n" + T("last == nil") + "rec(2)\n" + T("(last) or 0") + T("seen")),
+]
+
+
 def run_case(item):
     kind, arg = item
     if kind == "rand":
@@ -317,6 +397,10 @@ def run_case(item):
         name = "seed %d" % arg
     else:
         name, body = arg
+        extra = {}
+        if isinstance(body, dict):      # multi-file case: {"main.ms": entry, other files ...}
+            extra = {k: v for k, v in body.items() if k != "main.ms"}
+            body = body["main.ms"]
         text = 'print "@@RUN@@"\n' + body
         aliases = {}
         for m_ in re.finditer(r"^type (\w+) (.*)$", body, re.M):
@@ -325,8 +409,12 @@ def run_case(item):
                 aliases[m_.group(1)] = t_
         classes = set(re.findall(r"class (\w+)", body))
         feats = []
-    r, _, _ = core.run_program({"main.ms": text}, typed=True, cpu=10)
+    files = {"main.ms": text}
+    if kind != "rand":
+        files.update(extra)
+    r, _, _ = core.run_program(files, typed=True, cpu=10)
     a = analyse(text, r, aliases, classes)
+    a["files"] = files if len(files) > 1 else None
     a["name"] = name
     a["kind"] = kind
     a["features"] = feats
@@ -378,7 +466,7 @@ def run(ctx):
             else:
                 sig = "C02:random:%s:%s" % (pcls, detail if pcls == "dynamic_type_error" else mask(detail))
             out.violations.append(core.Violation(sig, "%s: %s" % (pcls, detail),
-                                                 {"files": {"main.ms": res["text"]}, "case": res["name"], "class": pcls,
+                                                 {"files": res.get("files") or {"main.ms": res["text"]}, "case": res["name"], "class": pcls,
                                                   "detail": detail, "run": res["run"]}))
         if res["kind"] == "rand" and len(out.samples) < 2 and res["pairs"] > 12 and "text" not in res:
             pass
@@ -425,7 +513,11 @@ def run(ctx):
 
 def replay(path):
     src = open(os.path.join(path, "files", "main.ms")).read()
-    r, _, _ = core.run_program({"main.ms": src}, typed=True, cpu=10)
+    files = {}
+    for root, _, names in os.walk(os.path.join(path, "files")):
+        for n in names:
+            files[os.path.relpath(os.path.join(root, n), os.path.join(path, "files"))] = open(os.path.join(root, n)).read()
+    r, _, _ = core.run_program(files, typed=True, cpu=10)
     aliases = {}
     for m in re.finditer(r"type (\w+) (.*)", src):
         t = tgen.parse_type(m.group(2))
